@@ -8,15 +8,15 @@ open Rx Rx.Gen.OnError
 def absOnError (g : OnErrorObserver) : St1 := .onError g.func
 
 theorem tie_OnError_next (g : OnErrorObserver) (v : Val) :
-    (OnErrorObserver.next g v).map (fun r => (absOnError r.1, r.2)) = some (St1.onNext (absOnError g) v) := by
+    (OnErrorObserver.next g v).map (fun r => (absOnError r.1, r.2)) = some (Rs.lift (St1.onNext (absOnError g) v)) := by
   rcases g with ⟨⟩ <;> rs_tie [OnErrorObserver.next, absOnError, St1.onNext]
 
 theorem tie_OnError_error (g : OnErrorObserver) (e : Err) :
-    (OnErrorObserver.error g e).map (fun r => r.2) = some (St1.onError' (absOnError g) e).2 := by
+    (OnErrorObserver.error g e).map (fun r => r.2) = some ((St1.onError' (absOnError g) e).2.map Rs.Ev.n) := by
   rcases g with ⟨⟩ <;> rs_tie [OnErrorObserver.error, absOnError, St1.onError']
 
 theorem tie_OnError_complete (g : OnErrorObserver) :
-    (OnErrorObserver.complete g).map (fun r => r.2) = some (St1.onComplete' (absOnError g)).2 := by
+    (OnErrorObserver.complete g).map (fun r => r.2) = some ((St1.onComplete' (absOnError g)).2.map Rs.Ev.n) := by
   rcases g with ⟨⟩ <;> rs_tie [OnErrorObserver.complete, absOnError, St1.onComplete']
 
 
